@@ -28,7 +28,9 @@ RULE = ('Hypothesis-generated base scripts: a non-decreasing sequence of clock r
         'processors after the faulting one do not run, Quit/quit_loop make start() return with running False and '
         'current world/handle unchanged and exactly one on_quit for quit_loop, other exceptions propagate as the '
         'same object, the next start() begins with dt 0. evaluations = base scripts, implementation_executions '
-        '= runs incl. fault positions. Non-trivial = a base script with >= 3 iterations and >= 2 distinct '
+        '= runs incl. fault positions. '
+        'In ~8% of the cases the first start() runs 70-520 iterations (faults then at sampled iterations around the powers of two). '
+        'Non-trivial = a base script with >= 3 iterations and >= 2 distinct '
         'positive deltas and >= 2 processors in some world, or a restart. Distinct = sha1 of canonical JSON.')
 ASSUMPTIONS = [
     'float clock readings are multiples of 1/8 below 2**10 (exact differences); integer and Fraction readings '
